@@ -301,6 +301,8 @@ class Tr:
       return ('(%s ++ %s)' % (a, b), ta)
     if ta == 'B' and tb == 'B' and op in (ast.BitOr, ast.BitAnd):
       return ('(%s %s %s)' % ('orb' if op is ast.BitOr else 'andb', a, b), 'B')
+    if op is ast.Pow and ta == 'V' and isinstance(n.right, ast.Constant) and n.right.value == 2 and not isinstance(n.right.value, bool):
+      return ('(vmul %s %s)' % (a, a), 'V')
     if op is ast.Div:
       # Python true division always yields a float; int / int raises ZeroDivisionError on 0
       if ta in ('N', 'Z', 'B') and tb in ('N', 'Z', 'B'):
